@@ -1269,6 +1269,12 @@ class Exec:
                 # comparing interface values panics when both hold the same uncomparable dynamic type
                 bad = and_('((_ is a.slice) %s)' % x.term, '((_ is a.slice) %s)' % y.term,
                            '(= (a.slice.t %s) (a.slice.t %s))' % (x.term, y.term))
+                # reference-like payloads: pointers and channels compare by identity; a map or a function does not compare at
+                # all, and neither may a dynamic type this program does not know - only the program's pointer types are safe
+                safe = sorted(vc.tid(ts_) for ts_, td_ in self.prog.types.items() if td_.get('k') in ('ptr', 'chan'))
+                known = or_(*['(= (a.ptr.t %s) %d)' % (x.term, t_) for t_ in safe]) if safe else 'false'
+                bad = or_(bad, and_('((_ is a.ptr) %s)' % x.term, '((_ is a.ptr) %s)' % y.term,
+                                    '(= (a.ptr.t %s) (a.ptr.t %s))' % (x.term, y.term), not_(known)))
                 if x.term != 'a.nil' and y.term != 'a.nil':
                     self.oblige('ifacecmp', 'comparison of interface values holding uncomparable types', self.reach, not_(bad), ['C03'], line)
                     vc.assume(not_(bad), self.reach)
